@@ -172,7 +172,11 @@ class Reporter:
 
 
 def seeds_from(rng, n):
-    return [int(s) for s in rng.integers(0, 2 ** 32, size=n)]
+    """seeds drawn at random, with the boundary values 0 and 1 mixed in (0 is a legitimate seed, but falsy in Python)"""
+    out = [int(s) for s in rng.integers(0, 2 ** 32, size=n)]
+    if n >= 2 and rng.integers(2) == 0:
+        out[int(rng.integers(n))] = int(rng.integers(2))
+    return out
 
 
 # ------------------------------------------------------------------------------------------------ A. kinds
@@ -530,6 +534,8 @@ def freeze(o):
 def gen_history(rng):
     n = int(rng.integers(5, 21))
     seed_pool = seeds_from(rng, 3)
+    if rng.integers(3) == 0:
+        seed_pool[0] = 0          # seed 0 must behave like every other seed
     gseed_pool = seeds_from(rng, 2)
     items = [int(i) for i in rng.choice(len(MENU), size=int(rng.integers(1, 4)), replace=False)]
     ops = []
